@@ -190,6 +190,10 @@ local _lua_current_max_time = nil
 -- invocation it returns to.
 local _lua_timeout_depth = 0
 
+-- Set by the hook when the limit has been exceeded.  pcall/xpcall given to
+-- modules pass the timeout on instead of letting module code swallow it.
+local _lua_timed_out = false
+
 local function _lua_set_timeout(timeout)
     _lua_timeout_depth = _lua_timeout_depth + 1
     if _lua_timeout_depth > 1 then
@@ -201,9 +205,11 @@ local function _lua_set_timeout(timeout)
         _lua_current_max_time = _lua_max_time
     end
     local start_time = os.time()
+    _lua_timed_out = false
     debug.sethook(
         function()
             if os.time() > start_time + _lua_current_max_time then
+                _lua_timed_out = true
                 error("Lua timeout error")
             end
         end,
@@ -288,6 +294,33 @@ local _orig_tonumber = tonumber
 local _orig_type = type
 local _orig_unpack = unpack
 local _orig_xpcall = xpcall
+
+-- pcall/xpcall for sandboxed code: identical to the originals, except that
+-- a time-limit abort cannot be caught.
+local function _pass_timeout(ok, ...)
+    if not ok and _lua_timed_out then
+        _orig_error("Lua timeout error", 0)
+    end
+    return ok, ...
+end
+
+local function _sandbox_pcall(f, ...)
+    return _pass_timeout(_orig_pcall(f, ...))
+end
+
+local function _sandbox_xpcall(f, handler, ...)
+    -- The handler runs inside a pcall of its own: an error raised by the
+    -- time-limit hook inside a message handler would otherwise leave hooks
+    -- disabled, and a looping handler could never be stopped.
+    local function guarded_handler(e)
+        if _lua_timed_out then
+            return e
+        end
+        local _, r = _orig_pcall(handler, e)
+        return r
+    end
+    return _pass_timeout(_orig_xpcall(f, guarded_handler, ...))
+end
 
 -- package is not really used anywhere in the Wiktionary module
 -- codebase, EXCEPT ja-translit uses package.loaders as a test
@@ -455,7 +488,7 @@ local function _lua_reset_env()
     env["_orig_next"] = _orig_next
     env["os"] = new_os
     env["pairs"] = _orig_pairs
-    env["pcall"] = _orig_pcall
+    env["pcall"] = _sandbox_pcall
     env["print"] = _orig_print
     env["rawequal"] = _orig_rawequal
     env["rawget"] = _orig_rawget
@@ -469,7 +502,7 @@ local function _lua_reset_env()
     env["tonumber"] = _orig_tonumber
     env["type"] = _orig_type
     env["unpack"] = _orig_unpack
-    env["xpcall"] = _orig_xpcall
+    env["xpcall"] = _sandbox_xpcall
     env["_lua_set_python_loader"] = _lua_set_python_loader
     env["_lua_set_timeout"] = _lua_set_timeout
     env["_lua_clear_timeout_hook"] = _lua_clear_timeout_hook
